@@ -208,3 +208,21 @@ func runDetermEntities(payload []*Sx) *Sx {
 	}
 	return L(A("same"))
 }
+
+func init() { kinds["determ-batch"] = runDetermBatch }
+
+// determ-batch: the payload of `batch` (mode none): status, number of callbacks and the multiset of delivered results
+// (request, values, decision, reasons, errors) are the same on every repetition
+func runDetermBatch(payload []*Sx) *Sx {
+	var first string
+	for i := 0; i < reps; i++ {
+		out := runBatch(payload)
+		s := L(out.List[0], out.List[1], out.List[2]).String()
+		if i == 0 {
+			first = s
+		} else if s != first {
+			return differs("batch", first, s)
+		}
+	}
+	return L(A("same"))
+}
